@@ -2,7 +2,7 @@
 (* Static rules of the emitted Go subset (what `go build` / `go vet` would    *)
 (* reject) as a walk over functions and statements with a scope stack of     *)
 (* (declared type, used) cells.  Rule inventory: DESIGN.md Appendix F.        *)
-EXTENDS Integers, Sequences, FiniteSets, TLC, Json, IOUtils
+EXTENDS Integers, Sequences, FiniteSets, TLC, Json, IOUtils, IntN
 
 Progs == ndJsonDeserialize(IOEnv.PROGS)
 
@@ -45,20 +45,16 @@ Implements(t, it) ==
   IF it.n = "any" THEN TRUE
   ELSE t.k = "named" /\ {Decl(it.n).methods[i].n : i \in DOMAIN Decl(it.n).methods} \subseteq MethodsOf(t.n)
 
-IntRange(n) ==
-  CASE Canon(n) = "int8" -> [lo |-> -128, hi |-> 127]
-    [] Canon(n) = "uint8" -> [lo |-> 0, hi |-> 255]
-    [] Canon(n) = "int16" -> [lo |-> -32768, hi |-> 32767]
-    [] Canon(n) = "uint16" -> [lo |-> 0, hi |-> 65535]
-    [] Canon(n) \in {"uint32", "uint64", "uint"} -> [lo |-> 0, hi |-> 2147483647]
-    [] OTHER -> [lo |-> -2147483647, hi |-> 2147483647]
+SignedTy(n) == Canon(n) \in {"int8", "int16", "int32", "int64", "int"}
+BitsTy(n) == CASE Canon(n) \in {"int8", "uint8"} -> 8 [] Canon(n) \in {"int16", "uint16"} -> 16
+               [] Canon(n) \in {"int32", "uint32"} -> 32 [] OTHER -> 64
+Representable(v, n) == InRange(BitsTy(n), SignedTy(n), v)        \* exact, on IntN numbers
 
 \* from: type of the value (possibly untyped constant carrying its value), to: target type
 Assignable(from, to) ==
   IF from.k = "untyped" THEN
-       CASE from.c = "int" -> (to.k = "named" /\ to.n \in IntTypes /\ from.v >= IntRange(to.n).lo /\ from.v <= IntRange(to.n).hi)
-                              \/ (to.k = "named" /\ to.n \in FloatTypes) \/ IsIface(to)
-         [] from.c = "bigint" -> (to.k = "named" /\ to.n \in {"int64", "uint64", "uint32"} \cup FloatTypes)
+       CASE from.c = "int" -> (to.k = "named" /\ to.n \in IntTypes /\ Representable(from.v, to.n))
+                              \/ (to.k = "named" /\ to.n \in FloatTypes) \/ (IsIface(to) /\ Representable(from.v, "int"))
          [] from.c = "float" -> (to.k = "named" /\ to.n \in FloatTypes) \/ IsIface(to)
          [] from.c = "string" -> (to.k = "named" /\ to.n = "string") \/ IsIface(to)
          [] from.c = "bool" -> (to.k = "named" /\ to.n = "bool") \/ IsIface(to)
@@ -103,14 +99,14 @@ Cmp == {"<", ">", "<=", ">=", "==", "!="}
 RECURSIVE TypeOf(_, _)
 Unify2(l, r) ==   \* common type of two operands or error
   IF IsErr(l) THEN l ELSE IF IsErr(r) THEN r
-  ELSE IF l.k = "untyped" /\ r.k = "untyped" THEN (IF l.c = r.c \/ {l.c, r.c} = {"int", "bigint"} THEN l ELSE TErr("mismatched constants"))
+  ELSE IF l.k = "untyped" /\ r.k = "untyped" THEN (IF l.c = r.c THEN l ELSE IF {l.c, r.c} = {"int", "float"} THEN TUntyped("float") ELSE TErr("mismatched constants"))
   ELSE IF l.k = "untyped" THEN (IF Assignable(l, r) THEN r ELSE TErr("constant not representable"))
   ELSE IF r.k = "untyped" THEN (IF Assignable(r, l) THEN l ELSE TErr("constant not representable"))
   ELSE IF Ident(l, r) THEN l ELSE TErr("mismatched types")
 
 TypeOf(e, ev) ==
-  CASE e.k = "int" -> [k |-> "untyped", c |-> "int", v |-> e.v]
-    [] e.k = "bigint" -> TUntyped("bigint")
+  CASE e.k = "int" -> [k |-> "untyped", c |-> "int", v |-> NFromInt(e.v)]
+    [] e.k = "bigint" -> [k |-> "untyped", c |-> "int", v |-> NFromDigits(FALSE, e.digits)]
     [] e.k = "float" -> TUntyped("float")
     [] e.k = "str" -> TUntyped("string")
     [] e.k = "bool" -> TUntyped("bool")
@@ -125,7 +121,7 @@ TypeOf(e, ev) ==
     [] e.k = "un" ->
          LET t == TypeOf(e.e, ev) IN
          IF IsErr(t) THEN t
-         ELSE IF e.op = "-" THEN (IF IsNumeric(t) THEN t ELSE IF t.k = "untyped" /\ t.c = "int" THEN [t EXCEPT !.v = -t.v] ELSE IF t.k = "untyped" /\ t.c \in {"float", "bigint"} THEN t ELSE TErr("operator - on non-number"))
+         ELSE IF e.op = "-" THEN (IF IsNumeric(t) THEN t ELSE IF t.k = "untyped" /\ t.c = "int" THEN [t EXCEPT !.v = NNeg(t.v)] ELSE IF t.k = "untyped" /\ t.c = "float" THEN t ELSE TErr("operator - on non-number"))
          ELSE IF e.op = "!" THEN (IF (t.k = "named" /\ t.n = "bool") \/ (t.k = "untyped" /\ t.c = "bool") THEN t ELSE TErr("operator ! on non-bool"))
          ELSE IF e.op = "&" THEN (IF e.e.k = "lit" THEN [k |-> "ptr", e |-> t] ELSE TErr("& of non-literal"))
          ELSE TErr("unary operator")
@@ -133,11 +129,11 @@ TypeOf(e, ev) ==
          LET l == TypeOf(e.l, ev) r == TypeOf(e.r, ev) u == Unify2(l, r) IN
          IF IsErr(u) THEN u
          ELSE IF e.op \in Arith THEN
-              IF e.op = "/" /\ r.k = "untyped" /\ r.c = "int" /\ r.v = 0 THEN TErr("division by zero")
-              ELSE IF IsNumeric(u) \/ (u.k = "untyped" /\ u.c \in {"int", "float", "bigint"}) THEN
+              IF e.op = "/" /\ r.k = "untyped" /\ r.c = "int" /\ IsZero(r.v) THEN TErr("division by zero")
+              ELSE IF IsNumeric(u) \/ (u.k = "untyped" /\ u.c \in {"int", "float"}) THEN
                    (IF u.k = "untyped" /\ u.c = "int" /\ l.k = "untyped" /\ r.k = "untyped" /\ l.c = "int" /\ r.c = "int" THEN
-                        [u EXCEPT !.v = CASE e.op = "+" -> l.v + r.v [] e.op = "-" -> l.v - r.v [] e.op = "*" -> l.v * r.v
-                                          [] OTHER -> IF (l.v < 0) # (r.v < 0) THEN -((IF l.v < 0 THEN -l.v ELSE l.v) \div (IF r.v < 0 THEN -r.v ELSE r.v)) ELSE (IF l.v < 0 THEN -l.v ELSE l.v) \div (IF r.v < 0 THEN -r.v ELSE r.v)]
+                        [u EXCEPT !.v = CASE e.op = "+" -> NAdd(l.v, r.v) [] e.op = "-" -> NSub(l.v, r.v) [] e.op = "*" -> NMul(l.v, r.v)
+                                          [] OTHER -> NDiv(l.v, r.v)]
                     ELSE u)
               ELSE IF e.op = "+" /\ ((u.k = "named" /\ u.n = "string") \/ (u.k = "untyped" /\ u.c = "string")) THEN u
               ELSE TErr("operator " \o e.op \o " not defined on operand")
@@ -160,8 +156,8 @@ TypeOf(e, ev) ==
          LET t == TypeOf(e.e, ev) i == TypeOf(e.i, ev) IN
          IF IsErr(t) THEN t ELSE IF IsErr(i) THEN i
          ELSE IF ~((i.k = "named" /\ i.n \in IntTypes) \/ (i.k = "untyped" /\ i.c = "int")) THEN TErr("non-integer index")
-         ELSE IF i.k = "untyped" /\ i.v < 0 THEN TErr("negative constant index")
-         ELSE IF t.k = "array" THEN (IF i.k = "untyped" /\ i.v >= t.n THEN TErr("constant index out of bounds") ELSE t.e)
+         ELSE IF i.k = "untyped" /\ NegOf(i.v) THEN TErr("negative constant index")
+         ELSE IF t.k = "array" THEN (IF i.k = "untyped" /\ NCmp(i.v, NFromInt(t.n)) >= 0 THEN TErr("constant index out of bounds") ELSE t.e)
          ELSE IF t.k = "slice" THEN t.e
          ELSE IF t.k = "named" /\ t.n = "string" THEN TNamed("uint8")
          ELSE TErr("index of non-indexable")
